@@ -1517,7 +1517,8 @@ class TensorDict(TensorDictBase):
                 [b for i, b in enumerate(td.batch_size) if i != in_dim]
             ),
             names=(
-                [name for i, name in enumerate(td.names) if i != in_dim]
+                # no names rather than an empty list when the only dimension is vmapped
+                ([name for i, name in enumerate(td.names) if i != in_dim] or None)
                 if self._has_names()
                 else None
             ),
